@@ -357,3 +357,23 @@ VARIANTS += [
     ("C17-raise-typeerror", "C17", ISO, '        raise ParserError("Invalid ISO 8601 string")', '        raise TypeError("Invalid ISO 8601 string")', "EXC.explicit"),
     ("C17-rs-error-type", "C17", "rust/src/python/parsing.rs", "        Err(error) => Err(exceptions::PyValueError::new_err(error.to_string())),", "        Err(error) => Err(exceptions::PyTypeError::new_err(error.to_string())),", "RUST.errors"),
 ]
+
+DF = "src/pendulum/formatting/difference_formatter.py"
+VARIANTS += [
+    ("C18-clean", "C18", None, "", "", None),
+    ("C18-zh-named-field", "C18", "src/pendulum/locales/zh/custom.py", '"after": "{0}后"', '"after": "{time}后"', "PLACEHOLDERS"),
+    ("C18-nl-week-data", "C18", "src/pendulum/locales/nl/locale.py", '        "week_data": {\n            "min_days": 1,', '        "week_data_": {\n            "min_days": 1,', "TOKENS.week_data"),
+    ("C18-fr-missing-plural", "C18", "src/pendulum/locales/fr/locale.py", '"month": {"one": "{0} mois", "other": "{0} mois"},', '"month": {"other": "{0} mois"},', "KEY-CLOSURE"),
+    ("C18-ru-relative-missing", "C18", "src/pendulum/locales/ru/custom.py", '    "before": "{0} до",\n', "", "KEY-CLOSURE"),
+    ("C18-de-index-field", "C18", "src/pendulum/locales/de/custom.py", '"after": "{0} später"', '"after": "{1} später"', "PLACEHOLDERS"),
+    ("C18-direction-swapped", "C18", DF, "                if is_future:\n                    key += \".future\"\n                else:\n                    key += \".past\"", "                if is_future:\n                    key += \".past\"\n                else:\n                    key += \".future\"", "DIRECTION.marker"),
+    ("C18-direction-after", "C18", DF, "                key = \"custom\"\n                if is_future:\n                    key += \".after\"\n                else:\n                    key += \".before\"\n\n                return t.cast(str, locale.get(key).format(time))\n\n        key +=", "                key = \"custom\"\n                if not is_future:\n                    key += \".after\"\n                else:\n                    key += \".before\"\n\n                return t.cast(str, locale.get(key).format(time))\n\n        key +=", "DIRECTION.marker"),
+    ("C18-invert-source", "C18", DF, "            is_future = diff.invert\n\n            if is_now:\n                # Relative to now", "            is_future = not diff.invert\n\n            if is_now:\n                # Relative to now", "DIRECTION.source"),
+    ("C18-absolute-marker", "C18", DF, '        if absolute:\n            key = f"translations.units.{unit}"', '        if absolute:\n            key = f"translations.relative.{unit}.past"', "DIRECTION.absolute"),
+    ("C18-ladder-threshold", "C18", DF, "            if diff.months > 6:", "            if diff.months > 5:", "LADDER.shape"),
+    ("C18-ladder-order", "C18", DF, '        elif diff.hours > 0:\n            unit = "hour"\n            count = diff.hours\n        elif diff.minutes > 0:\n            unit = "minute"\n            count = diff.minutes', '        elif diff.minutes > 0:\n            unit = "minute"\n            count = diff.minutes\n        elif diff.hours > 0:\n            unit = "hour"\n            count = diff.hours', "LADDER.order"),
+    ("C18-key-typo", "C18", DF, '                key = f"translations.relative.{unit}"', '                key = f"translations.relatives.{unit}"', "KEY-CLOSURE"),
+    ("C18-months-table", "C18", "src/pendulum/locales/sv/locale.py", '12: "dec.",', "", "TOKENS.tables"),
+    ("C18-inwords-unit", "C18", DUR, '            ("week", self.weeks),\n            ("day", self.remaining_days),\n            ("hour", self.hours),\n            ("minute", self.minutes),\n            ("second", self.remaining_seconds),\n        ]\n\n        if locale is None:', '            ("weeks", self.weeks),\n            ("day", self.remaining_days),\n            ("hour", self.hours),\n            ("minute", self.minutes),\n            ("second", self.remaining_seconds),\n        ]\n\n        if locale is None:', "INWORDS.units"),
+    ("C18-is-now", "C18", DT, "        is_now = other is None\n\n        if is_now:\n            other = self.now()\n\n        diff = self.diff(other)\n\n        return pendulum.format_diff(diff, is_now, absolute, locale)", "        is_now = other is not None\n\n        if not is_now:\n            other = self.now()\n\n        diff = self.diff(other)\n\n        return pendulum.format_diff(diff, is_now, absolute, locale)", "FORWARD"),
+]
